@@ -144,7 +144,7 @@ func genArMember(t *rapid.T, label string) ArMember {
 		// names that other ar dialects give a meaning to (BSD "#1/<n>": the name is in the first n
 		// data bytes; GNU "/<n>": an index into a name table; SysV "/" and "//" are left to C15):
 		// here they are names
-		m.Name = rapid.SampledFrom([]string{"#1/1", "#1/2", "#1/4", "#1/16", "#1/20", "#1/0", "#1/x", "#2/4", "#1/00000000004", "#1/2147483647"}).Draw(t, label+"fname")
+		m.Name = rapid.SampledFrom([]string{"#1/1", "#1/2", "#1/4", "#1/16", "#1/20", "#1/0", "#1/x", "#2/4", "#1/00000000004", "#1/2147483647", "\nb", "\n", "a\nb", "\x00", "`\nx", "!<arch>"}).Draw(t, label+"fname")
 	}
 	m.SlashTerm = rapid.Bool().Draw(t, label+"slash")
 	m.MTime = int64(rapid.Uint64Range(0, 999999999999).Draw(t, label+"mtime"))
